@@ -1,0 +1,39 @@
+//go:build verif
+
+// Contracts for package relationtuple (comment-only; build tag verif).
+
+package relationtuple
+
+// ---- storage interfaces as seen by the permission engine (ASSUMED contracts).
+// faulted: ghost flag, set when a storage operation of the current request failed
+// (herodot.ErrNotFound from the traverser means "no rows", not a failure).
+// db: ghost version of the database content (C17): read operations leave it unchanged.
+
+// stored tuples always carry a subject; a subject interface never wraps a nil pointer
+//@ spec wfsubject(s Subject) bool = s != nil && (istype(s, *SubjectSet) ==> as(s, *SubjectSet) != nil) && (istype(s, *SubjectID) ==> as(s, *SubjectID) != nil)
+
+//@ ghostvar faulted bool
+//@ ghostvar db int
+
+//@ func Manager.ExistsRelationTuples
+//@   trusted
+//@   modifies faulted
+//@   ensures faulted == (old(faulted) || result1 != nil)
+
+//@ func Manager.GetRelationTuples
+//@   trusted
+//@   modifies faulted
+//@   ensures faulted == (old(faulted) || result2 != nil)
+//@   ensures forall i in 0..len(result0) :: result0[i] != nil && wfsubject(result0[i].Subject)
+
+//@ func Traverser.TraverseSubjectSetExpansion
+//@   trusted
+//@   modifies faulted
+//@   ensures faulted == (old(faulted) || (result1 != nil && !isnf(result1)))
+//@   ensures forall i in 0..len(result0) :: result0[i] != nil && result0[i].To != nil
+
+//@ func Traverser.TraverseSubjectSetRewrite
+//@   trusted
+//@   modifies faulted
+//@   ensures faulted == (old(faulted) || result1 != nil)
+//@   ensures forall i in 0..len(result0) :: result0[i] != nil && result0[i].To != nil
